@@ -34,6 +34,21 @@ MUTANTS = [
     m("palette-colour-check-gone", ["C20"], SEQ, "            if colorDict[i] not in [\n                    'aqua',", "            if colorDict[i] is None or colorDict[i] not in [\n                    'pink', 'aqua',"),
     m("html-skip-residue-100", ["C20"], SEQ, "            color = self.aminoAcidColorMap[residue]\n", "            color = self.aminoAcidColorMap[residue]\n            if count == 100:\n                continue\n",
       note="the 101st residue is not rendered"),
-    m("palette-shared-between-objects", ["C20", "C15"], SEQ, "        self.aminoAcidColorMap = {}\n        for i in valid:", "        self.aminoAcidColorMap = getattr(Sequence, '_shared_map', None) or {}\n        Sequence._shared_map = self.aminoAcidColorMap\n        for i in valid:",
+    m("palette-shared-between-objects", ["C20"], SEQ, "        self.aminoAcidColorMap = {}\n        for i in valid:", "        self.aminoAcidColorMap = getattr(Sequence, '_shared_map', None) or {}\n        Sequence._shared_map = self.aminoAcidColorMap\n        for i in valid:",
       note="all objects share one palette dictionary"),
+    # ---- C15
+    m("cache-revert-F3", ["C15", "C03"], SEQ, "        if returnSeqDeltaMax and self.seqDeltaMax is None:\n            self.dmax = -1\n", "        if False:\n            self.dmax = -1\n",
+      note="the original defect repaired by the fix: commit (kappa, then deltaMax(True) -> (v, None))"),
+    m("cache-dmax-drift", ["C15"], SEQ, "        if self.dmax != -1 and not returnSeqDeltaMax:\n          return self.dmax", "        if self.dmax != -1 and not returnSeqDeltaMax:\n          return self.dmax * 1.0000001"),
+    m("lincomp-groups-list-grows", ["C15"], SEQ, "            sanitized_groups = []\n            for group in grps:", "            grps.append(grps[0])\n            sanitized_groups = []\n            for group in grps[:-1]:",
+      note="the groups list object (the shared default after the first default call) grows by one entry per call; only visible once the default has been used twice"),
+    m("phosphosites-shifted-in-place", ["C15", "C16"], SEQ, "        newSites = []\n        for i in self.phosphosites:\n            newSites.append(i + 1)\n        return newSites", "        for k in range(len(self.phosphosites)):\n            self.phosphosites[k] += 1\n        return self.phosphosites"),
+    m("aafraction-class-level-dict", ["C15", "C04"], SEQ, "        for i in self.seq:\n            AADICT[i] += 1\n\n        for i in AADICT:", "        AADICT = Sequence.__dict__.setdefault('_AAD', AADICT) if False else getattr(Sequence, '_AAD', None) or AADICT\n        Sequence._AAD = AADICT\n        for i in self.seq:\n            AADICT[i] += 1\n\n        for i in AADICT:",
+      note="amino-acid fractions accumulate in a dictionary shared by all calls"),
+    m("omega-caches-on-self", ["C15"], SEQ, "        augmented_seq = Sequence(newseq)\n\n        return augmented_seq.kappa()\n\n\n    #...................................................................................#\n    def Omega_seq", "        augmented_seq = Sequence(newseq)\n        self.dmax = augmented_seq.deltaMax()\n\n        return augmented_seq.kappa()\n\n\n    #...................................................................................#\n    def Omega_seq",
+      note="Omega overwrites the object's cached delta-max with that of the recoded sequence"),
+    m("phosphoseq-mutates-seq", ["C15", "C16"], SEQ, "                pseq = pseq + \"E\"\n            else:", "                pseq = pseq + \"E\"\n                if len(self.phosphosites) > 2:\n                    self.seq = self.seq[:idx] + \"E\" + self.seq[idx + 1:]\n            else:",
+      note="get_phosphosequence writes the substitution back into the stored sequence when more than two sites are set"),
+    m("lkuptab-hydropathy-drift", ["C15"], "localcider/backend/restable.py", "        res = self.lookForRes(resCode)\n        return res.hydropathy", "        res = self.lookForRes(resCode)\n        res.hydropathy = res.hydropathy + (1e-9 if resCode == 'W' else 0.0)\n        return res.hydropathy",
+      note="module-level residue table drifts with every lookup of W"),
 ]
